@@ -852,7 +852,7 @@ def _child_values(view, f_, lp):
                 (isinstance(c.func, ast.Attribute) and
                  c.func.attr == "append")):
             n = view.cfg.node_containing(c)
-            for a in c.args:
+            for a in list(c.args) + [k.value for k in c.keywords]:
                 t = view.term(a, n)
                 for cand in ([t] if t[0] != "tuple" else list(t[1:])):
                     if cand[0] == "new":
@@ -862,7 +862,10 @@ def _child_values(view, f_, lp):
     for t, n in handed:
         if not _fresh_child_dict(t, lp, helpers):
             return False, "the dictionary is created outside the loop"
-        if plain(t) != ("call", ("global", "dict"), (plain(REQ),), ()):
+        pt = plain(t)
+        # dict(requirements)  or  dict(requirements, **parent's values)
+        if not (pt[:3] == ("call", ("global", "dict"), (plain(REQ),)) and
+                (pt[3] == () or len(pt[3]) == 1 and pt[3][0][0] == "**")):
             return False, "it is not a copy of the child's requirements"
     return True, ""
 
